@@ -521,16 +521,21 @@ macro_rules! impl_io_uring {
                 $($arg: $arg_type),*
             ) -> std::io::Result<Arc<(Mutex<Option<c_longlong>>, Condvar)>> {
                 let token = EventLoop::token(SyscallName::$syscall);
-                self.operator.$syscall(token, $($arg, )*)?;
-                // verification hook: pause/observe point between handing the request to the
-                // kernel and registering the slot its completion is delivered to
-                #[cfg(feature = "verif")]
-                crate::verif::point("io_uring_between_submit_and_register", token, 0);
+                // register the slot first: the event-loop thread may dispatch the completion
+                // as soon as the kernel has the request, and drops it if no slot is registered
                 let arc = Arc::new((Mutex::new(None), Condvar::new()));
                 assert!(
                     self.syscall_wait_table.insert(token, arc.clone()).is_none(),
                     "The previous token was not retrieved in a timely manner"
                 );
+                // verification hook: pause/observe point between registering the slot the
+                // completion is delivered to and handing the request to the kernel
+                #[cfg(feature = "verif")]
+                crate::verif::point("io_uring_between_submit_and_register", token, 0);
+                if let Err(e) = self.operator.$syscall(token, $($arg, )*) {
+                    _ = self.syscall_wait_table.remove(&token);
+                    return Err(e);
+                }
                 Ok(arc)
             }
         }
